@@ -45,6 +45,11 @@ type Config struct {
 	GlobalNonNil func(g *ssa.Global) bool
 	// GlobalConst: package-level integer variable only written by its initialiser, with that value.
 	GlobalConst func(g *ssa.Global) (int64, bool)
+	// SliceInvariant: values of this (named slice) type always have exactly n non-nil elements (established by a
+	// constructor-shape rule checked elsewhere).
+	SliceInvariant func(t types.Type) (n int64, elemsNonNil bool, ok bool)
+	// FieldNonNil: loads of this struct field always yield a non-nil value (same provenance).
+	FieldNonNil func(owner types.Type, idx int) bool
 	// ExtraAssume lets a property accept named obligations (key -> reason).
 	ExtraAssume map[string]string
 }
@@ -53,7 +58,8 @@ type Config struct {
 type Analyzer struct {
 	cfg      Config
 	tt       *termTable
-	obls     map[ssa.Instruction]map[string]*Obligation
+	verdicts map[string]*verdict
+	failAll  bool
 	frames   map[string]*Frame
 	stack    []*ssa.Function
 	Externs  map[string]int // external callees seen (name -> count)
@@ -62,6 +68,9 @@ type Analyzer struct {
 	steps    int
 	Warnings []string
 	tables   map[*Frame]*tableSummary
+	memo        map[*Frame]*memoEntry
+	memoHits    int
+	callerRoots []*State
 }
 
 func New(cfg Config) *Analyzer {
@@ -71,8 +80,8 @@ func New(cfg Config) *Analyzer {
 	if cfg.AllocBound == 0 {
 		cfg.AllocBound = 1 << 20
 	}
-	return &Analyzer{cfg: cfg, tt: newTermTable(), obls: map[ssa.Instruction]map[string]*Obligation{}, frames: map[string]*Frame{},
-		Externs: map[string]int{}, Unknown: map[string]int{}, Reached: map[*ssa.Function]int{}, tables: map[*Frame]*tableSummary{}}
+	return &Analyzer{cfg: cfg, tt: newTermTable(), verdicts: map[string]*verdict{}, frames: map[string]*Frame{},
+		Externs: map[string]int{}, Unknown: map[string]int{}, Reached: map[*ssa.Function]int{}, tables: map[*Frame]*tableSummary{}, memo: map[*Frame]*memoEntry{}}
 }
 
 type retState struct {
@@ -286,13 +295,24 @@ func (an *Analyzer) load(s *State, addr *Term) cell {
 	// field of a struct value held in a local: derive from the struct term
 	if addr.kind == "addr" && strings.HasPrefix(addr.key, "addr|F(") && addr.a != nil {
 		if sc, ok := s.mem[addr.a]; ok && !sc.int && sc.t != nil && addr.a.kind == "alloc" {
-			return an.fieldOfValue(sc.t, addr)
+			return an.fieldOfValueIn(s, sc.t, addr)
 		}
 	}
 	return an.initCell(s, addr)
 }
 
 func (an *Analyzer) fieldOfValue(structTerm *Term, faddr *Term) cell {
+	return an.fieldOfValueIn(nil, structTerm, faddr)
+}
+
+func (an *Analyzer) fieldOfValueIn(s *State, structTerm *Term, faddr *Term) cell {
+	if s != nil {
+		var n int
+		fmt.Sscanf(faddr.key[strings.LastIndex(faddr.key, ".")+1:], "%d", &n)
+		if fc, ok := s.mem[an.svalAddr(structTerm, n)]; ok {
+			return fc
+		}
+	}
 	var elem types.Type
 	if p, ok := faddr.typ.Underlying().(*types.Pointer); ok {
 		elem = p.Elem()
